@@ -43,6 +43,13 @@ def matches(f, m):
             for k2, v2 in val.items():
                 if m.get(k2) != v2:
                     return False
+        elif key == "gt":      # numeric lower bounds on (dotted) fields of the record
+            for k2, v2 in val.items():
+                cur = m
+                for part in k2.split("."):
+                    cur = cur.get(part) if isinstance(cur, dict) else None
+                if not isinstance(cur, (int, float)) or not cur > v2:
+                    return False
         elif key == "shape":   # spec-computed predicates attached to the mismatch by the judge
             for k2, v2 in val.items():
                 if m.get("shape", {}).get(k2) != v2:
